@@ -94,6 +94,14 @@ func c14Frames() *poolFrames {
 	altp := minimalPacket(3)
 	altp.Topic, altp.Payload = []byte("q"), []byte("Z")
 	add(mustEncode(altp, spec.Form{}))
+	// frames the decoder accepts although they carry a property foreign to
+	// the packet (here: a subscription identifier), a state-carrying decoder
+	// may route it to a packet decoded earlier
+	for _, fb := range []byte{0x40, 0x50, 0x62, 0x70} {
+		add([]byte{fb, 0x08, 0x00, 0x01, 0x00, 0x04, 0x0b, 0x07, 0x0b, 0x09})
+	}
+	add([]byte{0x20, 0x07, 0x00, 0x00, 0x04, 0x0b, 0x07, 0x0b, 0x09})
+	add([]byte{0xe0, 0x04, 0x00, 0x02, 0x0b, 0x07})
 	pf.probe = c14Probe()
 	for i, f := range pf.frames {
 		p, err, res := readPacket(bytes.NewReader(f), stepBudget(len(f)))
